@@ -190,9 +190,9 @@ PROPS["C13"] = dict(level="proof", module="Texel.Properties.C13", translators=["
                "pre-existing targets with overwrite) and every target table is compared with what snap.SnapPolygon returns in-process.",
     level_note="Trusted: Lean kernel, the two extractors; the binary's behaviour end to end is validated by differential runs, not proved.")
 
-PROPS["C14"] = dict(level="proof", module="Texel.Properties.C14", translators=["flags", "arith"],
+PROPS["C14"] = dict(level="proof", module="Texel.Properties.C14", translators=["flags", "arith", "isquad"],
     technique="Lean 4 theorem (IsQuadTree accepts iff the set is a true quadtree, by induction over the matrices) on a hand-written model + exhaustive perturbation correspondence + call order extracted from main.go",
-    theorems=["Texel.C14.localErr_none_iff", "Texel.C14.pairErr_none_iff", "Texel.C14.C14_iff", "Texel.C14.C14_validate_order", "Texel.C14.C14_doubling", "Texel.C14.firstErr_none_iff", "Texel.C14.C14_pixel_count", "Texel.GenArith.gen_level", "Texel.C14.C14_level_used"],
+    theorems=["Texel.C14.localErr_none_iff", "Texel.C14.pairErr_none_iff", "Texel.C14.C14_iff", "Texel.C14.C14_validate_order", "Texel.C14.C14_doubling", "Texel.C14.firstErr_none_iff", "Texel.C14.C14_pixel_count", "Texel.GenArith.gen_level", "Texel.C14.C14_level_used", "Texel.GenIsquad.gen_isQuadTree_none", "Texel.C14.C14_iff_source"],
     streams=["isquad"], design_ref="DESIGN.md §6 C14",
     trusted=["Model.QuadTree is a hand-written mirror of pointindex.IsQuadTree, tied by the isquad correspondence: every accepted built-in set x every tile matrix x every single-field perturbation (enumerated completely), verdict and failing check compared",
              "cell sizes are exact rationals in the model; the code's single float division can differ from the exact ratio only within an ulp of the tolerance borders 1.99/2.01 (those two perturbations are run for 'no panic' only)",
